@@ -202,6 +202,31 @@ func (s *NumRangeShard) EqualStart(key interface{}, index int) bool {
 	return s.Shards[index].Start == v
 }
 
+// parseDateKey converts a date sharding key (YYYY-MM-DD HH:MM:SS, YYYY-MM-DD or
+// unix timestamp) into a time. ok is false when the key has another format, in
+// which case callers must not assume it is the first instant of its period.
+func parseDateKey(key interface{}) (time.Time, bool) {
+	switch val := key.(type) {
+	case int:
+		return time.Unix(int64(val), 0), true
+	case uint64:
+		return time.Unix(int64(val), 0), true
+	case int64:
+		return time.Unix(val, 0), true
+	case string:
+		for _, layout := range []string{"2006-01-02 15:04:05", "2006-01-02"} {
+			if tm, err := time.ParseInLocation(layout, val, time.Local); err == nil {
+				return tm, true
+			}
+		}
+	}
+	return time.Time{}, false
+}
+
+func isMidnight(tm time.Time) bool {
+	return tm.Hour() == 0 && tm.Minute() == 0 && tm.Second() == 0 && tm.Nanosecond() == 0
+}
+
 type DateYearShard struct {
 }
 
@@ -236,11 +261,11 @@ func (s *DateYearShard) FindForKey(key interface{}) (int, error) {
 
 func (s *DateYearShard) EqualStart(key interface{}, index int) bool {
 	numYear, err := s.getNumYear(key)
-	if err != nil {
+	if err != nil || numYear != index {
 		return false
 	}
-
-	return numYear == index
+	tm, ok := parseDateKey(key)
+	return ok && tm.Month() == time.January && tm.Day() == 1 && isMidnight(tm)
 }
 
 type DateMonthShard struct {
@@ -297,11 +322,11 @@ func (s *DateMonthShard) FindForKey(key interface{}) (int, error) {
 
 func (s *DateMonthShard) EqualStart(key interface{}, index int) bool {
 	numYear, err := s.getNumYearMonth(key)
-	if err != nil {
+	if err != nil || numYear != index {
 		return false
 	}
-
-	return numYear == index
+	tm, ok := parseDateKey(key)
+	return ok && tm.Day() == 1 && isMidnight(tm)
 }
 
 type DateDayShard struct {
@@ -358,11 +383,11 @@ func (s *DateDayShard) FindForKey(key interface{}) (int, error) {
 
 func (s *DateDayShard) EqualStart(key interface{}, index int) bool {
 	numYear, err := s.getNumYearMonthDay(key)
-	if err != nil {
+	if err != nil || numYear != index {
 		return false
 	}
-
-	return numYear == index
+	tm, ok := parseDateKey(key)
+	return ok && isMidnight(tm)
 }
 
 type DefaultShard struct {
